@@ -47,6 +47,7 @@ fn in_flight(w: &World) -> bool {
 /// Execute one operation. `Err` means the operation does not apply to the current state (the
 /// monitor is not affected in that case).
 pub fn exec(op: &Op) -> R {
+    let op = &world::with(|w| op.normalize(w.handles.len(), w.weaks.len()));
     match op {
         Op::Nop => Ok(()),
         Op::New => {
@@ -742,7 +743,22 @@ pub fn run_scripts(node: &Node, when: When) {
         Err(_) => return,
     };
     let me = node.id;
+    // actions come in groups separated by Nop; if one action of a group is not applicable the
+    // rest of that group is skipped too (it would act on the wrong handles)
+    let mut skipping = false;
     for op in acts {
+        if op == Op::Nop {
+            skipping = false;
+            continue;
+        }
+        if skipping {
+            world::with(|w| {
+                w.stats.script_skips += 1;
+                w.ev(Ev::ScriptSkip(me, format!("{} (earlier action of the group was skipped)", op)));
+            });
+            continue;
+        }
+        let op = world::with(|w| op.normalize(w.handles.len(), w.weaks.len()));
         // decide at run time whether the action is within the contract (acts only on objects
         // that are not being destroyed; upgrades of Weak handles to dying peers are allowed)
         let verdict = world::with(|w| -> Result<(), String> {
@@ -772,6 +788,7 @@ pub fn run_scripts(node: &Node, when: When) {
                     w.stats.script_skips += 1;
                     w.ev(Ev::ScriptSkip(me, format!("{} ({})", op, why)));
                 });
+                skipping = true;
                 continue;
             }
             Ok(()) => {}
@@ -785,6 +802,7 @@ pub fn run_scripts(node: &Node, when: When) {
                 w.stats.script_skips += 1;
                 w.ev(Ev::ScriptSkip(me, format!("{} ({})", op, why)));
             });
+            skipping = true;
         }
     }
 }
